@@ -176,6 +176,10 @@ def cart_checks(inp, A):
     A(("returned pupil is the annulus indicator", float(numpy.abs((pup - ind) * (~edge)).max()), 0.0))
     A(("masked rendering is zero outside the annulus", float(numpy.abs(klm * (1 - ind)[None] * (~edge)[None]).max()), 0.0))
     A(("masked rendering = unmasked rendering inside the annulus", float(numpy.abs((klm - klu) * ind[None]).max()), 0.0))
+    # "masked" asked for with another truthy spelling (numpy bool from a comparison, int 1) is still "masked"; falsy = unmasked
+    for nm, mv in (("numpy.True_", numpy.bool_(True)), ("1", 1), ("numpy.any(...)", numpy.any(numpy.array([ri >= 0])))):
+        klt = quiet(kl.make_kl, nmax, dim, ri=ri, nr=nr, mask=mv)[0]
+        A(("mask=%s renders exactly like mask=True" % nm, float(numpy.abs(klt - klm).max()), 0.0))
     A(("returned variances are those of the polar basis", float(numpy.abs(numpy.asarray(var) - numpy.asarray(pb["evals"])).max()), 0.0))
     # polar function at each pixel's (r, theta): radial function interpolated linearly in r^2, exact azimuthal factor
     npp = pb["np"]
